@@ -193,3 +193,117 @@ func init() {
 		return nil
 	}})
 }
+
+// ---------------------------------------------------------------------------
+// C03 (I) multi-key commands with many keys and a repeated key: "MGET, MSET, DEL, EXISTS, TOUCH and UNLINK are
+// defined as their per-key commands combined in argument order".
+//
+// alphabet  MSET of n pairs, n in {2,3,5,8,12,13,14,17,24,33,40} (quick: up to 17), over keys spread over 3 nodes,
+//           with one key given twice (every pair of positions i<j, different values), followed by MGET of all keys
+//           (+ the repeated key), EXISTS and DEL with the repeated key
+// oracle    every reply equals the single-server reference (the repeated key holds the later value), no redirection
+// ---------------------------------------------------------------------------
+
+type c03multi struct {
+	N    int `json:"pairs"`
+	I, J int `json:"i"`
+}
+
+func c03multiRun(cs c03multi) (sig, detail string) {
+	body := func() {
+		cl := cluster.New(3, 0, 3)
+		s := vfStartStack(cl, vfSvcConfig(0, nil, 0))
+		c := s.NewClient("c0")
+		mset := []string{"MSET"}
+		var keys []string
+		for p := 0; p < cs.N; p++ {
+			k := fmt.Sprintf("key:%d", p)
+			if p == cs.I || p == cs.J {
+				k = "twice"
+			}
+			keys = append(keys, k)
+			mset = append(mset, k, fmt.Sprintf("value-%d", p))
+		}
+		prog := [][]string{mset, append([]string{"MGET"}, keys...), {"GET", "twice"}, append([]string{"EXISTS"}, keys...),
+			append([]string{"TOUCH"}, keys...), append([]string{"DEL"}, keys...), append([]string{"MGET"}, keys...)}
+		for i, args := range prog {
+			mark := len(cl.Log)
+			got, err := c.Do(args...)
+			if err != nil {
+				sig, detail = "connection-failed / "+strings.ToLower(args[0]), fmt.Sprintf("step %d: %v", i, err)
+				return
+			}
+			want := refExec(s.ref, args)
+			if !resp.Equal(got, want) {
+				sig = "reply-differs-from-single-server / " + strings.ToLower(args[0]) + " after an MSET that names a key twice"
+				detail = fmt.Sprintf("MSET of %d pairs with the same key at positions %d and %d, then %s: proxy replied %s, a single server replies %s", cs.N, cs.I, cs.J, args[0], got, want)
+				return
+			}
+			if r := cl.Redirects(mark); r != 0 {
+				sig, detail = "redirected-on-stable-cluster / "+strings.ToLower(args[0]), fmt.Sprintf("step %d", i)
+				return
+			}
+		}
+	}
+	e := sched.RunOnce(nil, sched.Options{MaxSteps: 4000000}, body)
+	for _, f := range e.Failures {
+		sig, detail = f.Sig, f.Detail
+	}
+	if sig == "" && e.EndWhy != "main-returned" {
+		sig = "execution-ended-" + e.EndWhy
+	}
+	return
+}
+
+func c03multiKey(env sched.Env) *sched.Report {
+	rep := &sched.Report{Outcomes: map[string]int64{}, Complete: true}
+	ns := []int{2, 3, 5, 8, 12, 13, 14, 17}
+	if env.Tier == "thorough" {
+		ns = append(ns, 24, 33, 40)
+	}
+	sigs := map[string]bool{}
+	n := 0
+	for _, pairs := range ns {
+		for i := 0; i < pairs; i++ {
+			for j := i + 1; j < pairs; j++ {
+				n++
+				if n%env.NShards != env.Shard {
+					continue
+				}
+				if sched.PastDeadline(env.Deadline) {
+					rep.Complete = false
+					return rep
+				}
+				cs := c03multi{pairs, i, j}
+				sched.Progress(cs)
+				sig, detail := c03multiRun(cs)
+				rep.Execs++
+				sched.Progress(nil)
+				rep.Transitions += 7
+				if sig != "" {
+					rep.Outcomes["violation: "+sig]++
+					if !sigs[sig] {
+						sigs[sig] = true
+						rep.Violations = append(rep.Violations, sched.CustomViolation("C03/multi-key", sig, detail, cs))
+					}
+				} else {
+					rep.Outcomes["ok"]++
+				}
+			}
+		}
+	}
+	rep.States, rep.Distinct = rep.Execs, rep.Execs
+	rep.CustomSamples = []interface{}{c03multi{13, 0, 3}}
+	return rep
+}
+
+func init() {
+	sched.Register(&sched.Scenario{Name: "C03/multi-key", Custom: c03multiKey, ReplayCustom: func(in json.RawMessage) []sched.Failure {
+		var cs c03multi
+		json.Unmarshal(in, &cs)
+		if sig, detail := c03multiRun(cs); sig != "" {
+			return []sched.Failure{{Sig: sig, Detail: detail}}
+		}
+		return nil
+	}})
+}
